@@ -71,6 +71,10 @@ CHECKS = {
    text="For every hypergraph shape within the bound (isolated nodes, empty/duplicate/singleton edges included) incidence, adjacency (weighted/thresholded by s), degree vector, intersection profile, clique-motif matrix, adjacency tensor, order-d, multi-order and normalised Laplacians are compared entrywise through their returned index maps with brute-force definitions; symmetry, zero diagonal, zero row sums; sparse equals dense for every argument combination; degenerate cases (no edges, none of the requested order). Node labels and edge ids are unbounded solver integers, order/s/flags are solver-chosen.",
    note="Reduced reach, stated: the numeric kernels are scipy/numpy C code, so the solver quantifies only the labelling and the small integer/boolean parameters; shapes are enumerated. Positive semidefiniteness is not decided (follows from symmetry and the B^T B form).",
    technique="bounded symbolic execution (z3) over labels and parameters with enumerated shapes; brute-force matrix oracles"),
+ "C14": dict(level="other", ref="5/C14",
+   text="Per shape (disconnected, isolated nodes, singletons, multi-edges, nested edges) with symbolic labels: connected components, is_connected, component count, largest component and a symbolic node's component against networkx on the node-edge bipartite graph; single-source shortest path lengths from a symbolic source against BFS in the clique expansion (inf exactly across components, symmetry); clustering coefficient against nx.clustering of the projection; to_graph, s-line graph with its three weight modes (s solver-chosen), bipartite graph and encapsulation DAG against definitions evaluated by the harness.",
+   note="Reduced reach, stated: shapes enumerated; the solver quantifies labels, source node, s, weight mode, subset_types. networkx is the independent oracle. Exact link set of the 'empirical' encapsulation DAG is outside.",
+   technique="bounded symbolic execution (z3) of xgi's graph algorithms on symbolic labels against networkx on harness-built expansions"),
 }
 NOT_APPLICABLE = {
  "C11": "disk round trips: every value that reaches a file passes through json/numpy C encoders which reject or realise a symbolic proxy, so no solver variable can cross the file boundary; in-memory halves are decided under C10/C04",
